@@ -23,6 +23,7 @@ FIELD_TYPES.update({
     ("RetryJob", "kwargs"): "any",
     ("RetryJob", "stop_retry"): "bool",
     ("RetryJob", "old_delegate"): OPT("future"),
+    ("RetryFuture", "_stop_retry"): "bool",
     ("RetryExecutor", "_log"): "logger",
     ("RetryExecutor", "_delegate"): "executor",
     ("RetryExecutor", "_default_retry_policy"): "any",
@@ -317,7 +318,7 @@ def _post_dcb(engine, st, ctx, out):
         canc = [(i, e) for i, e in enumerate(st.trace) if e.kind == "repo-call" and e.meth.endswith("_Future.cancel")]
         popi = [i for i, e in enumerate(st.trace) if e.kind == "repo-call" and e.meth.endswith("._pop_job")]
         cl.append(("SP cancelled attempt: the retry future is cancelled too (never left pending), while its job is still registered", "SP",
-                   z3.And(z3.BoolVal(len(canc) == 1 and bool(popi) and canc[0][0] < popi[0]), canc[0][1].args[0] == ctx["fut"].t if canc else False), ["C03", "C06"]))
+                   z3.And(z3.BoolVal(len(canc) == 1 and bool(popi) and canc[0][0] < popi[0]), canc[0][1].args[0] == ctx["fut"].t if canc else False), ["C03", "C06", "C02"]))     # C02: waiters of the retry future are released by this kind of completion too
         return cl
     cl.append(("the policy is consulted with this job's attempt number (at most once per finished attempt)", "PC",
                z3.And([z3.And(e.callee == ctx["policy"], e.args[0] == ctx["attempt"], e.args[1] == ctx["d"].t) for e in pol] +
